@@ -4,8 +4,8 @@ from harness import gen_build as G
 
 class C13(Prop):
     id = 'C13'
-    theorems = ['C13.trichotomy', 'C13.complete_file_set', 'C13.wf_needed', 'C13.wf_of_mk', 'C13.invalid_fails', 'C13.unknown_encapsulee', 'C13.ambiguous_encapsulee', 'C13.non_component_encapsulee', 'C13.selection_rejected', 'C13.port_type_unresolved', 'C13.uncovered_port', 'C13.multiclient_invalid', 'C13.multiclient_port_unknown']
-    proof_modules = ['DznProofs.C13', 'DznProofs.C13Invalid']
+    theorems = ['C13.trichotomy', 'C13.valid_succeeds', 'C13.complete_file_set', 'C13.wf_needed', 'C13.wf_of_mk', 'C13.invalid_fails', 'C13.unknown_encapsulee', 'C13.ambiguous_encapsulee', 'C13.non_component_encapsulee', 'C13.selection_rejected', 'C13.port_type_unresolved', 'C13.uncovered_port', 'C13.multiclient_invalid', 'C13.multiclient_port_unknown']
+    proof_modules = ['DznProofs.C13', 'DznProofs.C13Invalid', 'DznProofs.C13Valid']
     level_rule = ('buildable models (1-3 interfaces, externs, enums, nested/re-opened namespaces, 0-5 ports, '
                   'multi-client) x configurations (all presets, explicit sets, wildcards, both origins, prefixes) '
                   '+ every applicable single-fault variation of each valid case (unknown/non-component '
